@@ -5,7 +5,7 @@ import fcntl, hashlib, json, os, pathlib, re, shutil, subprocess, sys, time
 ROOT = pathlib.Path(__file__).resolve().parent.parent
 BUILD = ROOT / 'build'
 COQ = ROOT / 'coq'
-REPO = pathlib.Path(os.environ.get('VERIF_REPO', '/repo'))
+REPO = pathlib.Path(os.environ.get('VERIF_REPO') or '/repo')
 GUARD = 'image_webp_verif'
 JOBS = str(os.cpu_count() or 8)
 
